@@ -450,6 +450,12 @@ example : forCommit (fun f => f == chars% "Cargo.lock")
     = ⟨3, 1, 6, 5, 15, 2, 1, 8,
        [(chars% "claude::opus", ⟨1, 0, 1, 5, 0⟩), (chars% "cursor::gpt", ⟨5, 1, 4, 10, 2⟩)]⟩ := by decide
 
+/-- non-vacuity of `commit_identities`' git-consistency hypothesis on that instance -/
+example : (numstat (fun f => f == chars% "Cargo.lock")
+      (chars% "5\t1\tsrc/a.rs\n2\t0\t\"b c.txt\"\n40\t2\tCargo.lock\n1\t0\tother\n")).1
+    = addedCount (effectiveAdded (fun f => f == chars% "Cargo.lock")
+        (exampleAdded ++ [(chars% "Cargo.lock", [1, 2, 3])])) := by decide
+
 end GitAi.Stats
 
 #print axioms GitAi.Stats.overlap_counts
